@@ -183,3 +183,115 @@ def unpickled_collection_is_equal_and_independent(g0: int, s0: int, a0: int, pw:
     pc.numberDensities["U235"] = x + 1
     defs[1].__set__(pc, x + 1)
     assert c.power == x and c.mgFlux[1] == f1 and c.numberDensities["U235"] == n, "and the other way round"
+
+
+# ------------------------------------------------------------------------------------------------ composites
+def mk_tree(k, hasParent, s, pws, fls, dens):
+    """root (collection 0) with k children (collections 1..k); every collection holds a scalar, a list and a dict"""
+    root = mk_node(Owner, "root", mk_coll(s[0], 0, pws[0], [fls[0], 2.0], {"U235": dens[0]}, None, None))
+    kids = []
+    for i in range(1, k + 1):
+        c = mk_node(Owner, "kid%d" % i, mk_coll(s[i], 0, pws[i], [fls[i], 3.0], {"U235": dens[i]}, None, None))
+        c.parent = root
+        root._children.append(c)
+        kids.append(c)
+    if hasParent:
+        up = mk_node(Owner, "up", mk_coll(s[3], 0, 0.0, None, None, None, None))
+        up._children.append(root)
+        root.parent = up
+    return root, kids
+
+
+@lemma(gen={"g0": (10, 1000), "k": (0, 2)})
+def deep_copy_of_a_subtree_copies_every_collection_with_its_own_serial_number(g0: int, k: int, hasParent: bool, p0: float, p1: float, p2: float, f0: float, f1: float, f2: float,
+                                                                               n0: float, n1: float, n2: float, x: float):
+    """copy.deepcopy of a composite with k = 0..2 children (shape enumerated, all values symbolic; the composite may
+    itself hang in a tree): every node of the copy has a NEW collection with the values of its original, no mutable
+    value is shared, the serial numbers of the copy are pairwise different and all larger than the counter was (the
+    live numbers 0..3 are <= g0), the originals keep theirs."""
+    k = choose(k, 0, 2)
+    assume(g0 >= 10)
+    defs = mk_class()
+    pcmod.GLOBAL_SERIAL_NUM = g0
+    pws, fls, dens = [p0, p1, p2], [f0, f1, f2], [n0, n1, n2]
+    root, kids = mk_tree(k, hasParent, [0, 1, 2, 3], pws, fls, dens)
+    cp = copy.deepcopy(root)
+    orig = [root] + kids
+    new_ = [cp] + list(cp._children)
+    assert len(cp._children) == k and cp.parent is None
+    serials = []
+    for i in range(k + 1):
+        o, c = orig[i], new_[i]
+        assert not same(c, o) and not same(c.p, o.p) and isinstance(c.p, PCS), "its own collection"
+        assert c.name == o.name
+        assert c.p.power == pws[i] and len(c.p.mgFlux) == 2 and c.p.mgFlux[0] == fls[i] and c.p.numberDensities["U235"] == dens[i], "equal values"
+        assert not same(c.p.mgFlux, o.p.mgFlux) and not same(c.p.numberDensities, o.p.numberDensities), "no shared storage"
+        assert c.p.serialNum > g0 and o.p.serialNum == i, "a number no live object holds; the original keeps its own"
+        for sn in serials:
+            assert c.p.serialNum != sn, "no two nodes of the copy share a number"
+        serials.append(c.p.serialNum)
+        assert pcmod.GLOBAL_SERIAL_NUM >= c.p.serialNum
+    assert pcmod.GLOBAL_SERIAL_NUM == g0 + k + 1, "one number per copied node"
+    # later changes on either side
+    for i in range(k + 1):
+        new_[i].p.mgFlux[0] = x
+        new_[i].p.numberDensities["U235"] = x
+        new_[i].p.power = x
+    for i in range(k + 1):
+        assert orig[i].p.power == pws[i] and orig[i].p.mgFlux[0] == fls[i] and orig[i].p.numberDensities["U235"] == dens[i], "the original does not see changes of the copy"
+        orig[i].p.mgFlux[1] = x + 1
+        orig[i].p.power = x + 1
+        assert new_[i].p.power == x and new_[i].p.mgFlux[1] == (2.0 if i == 0 else 3.0), "nor the copy changes of the original"
+
+
+@lemma(gen={"k": (0, 2), "s0": (0, 50), "s1": (51, 100), "s2": (101, 150)})
+def copyParamsToChildren_gives_every_child_the_parents_value(k: int, s0: int, s1: int, s2: int, cpPower: bool, cpFlux: bool, p0: float, p1: float, p2: float,
+                                                            f0: float, f1: float, f2: float, n0: float, n1: float, n2: float):
+    """ArmiObject.copyParamsToChildren for every subset of {power, mgFlux} on a parent with 0..2 children: the named
+    parameters of every child equal the parent's, everything else (other parameters, serial numbers, the parent) is
+    as before."""
+    k = choose(k, 0, 2)
+    mk_class()
+    pws, fls, dens = [p0, p1, p2], [f0, f1, f2], [n0, n1, n2]
+    root, kids = mk_tree(k, False, [s0, s1, s2, 0], pws, fls, dens)
+    names = (["power"] if cpPower else []) + (["mgFlux"] if cpFlux else [])
+    root.copyParamsToChildren(names)
+    for i in range(1, k + 1):
+        c = kids[i - 1]
+        assert c.p.power == (p0 if cpPower else pws[i]), "power: the parent's value iff named"
+        assert len(c.p.mgFlux) == 2 and c.p.mgFlux[0] == (f0 if cpFlux else fls[i]) and c.p.mgFlux[1] == (2.0 if cpFlux else 3.0), "mgFlux: the parent's value iff named"
+        assert c.p.numberDensities["U235"] == dens[i] and c.p.serialNum == [s0, s1, s2][i], "everything else untouched"
+        assert same(c.parent, root)
+    assert root.p.power == p0 and root.p.mgFlux[0] == f0 and root.p.serialNum == s0 and len(root._children) == k
+
+
+@lemma(gen={"g0": (200, 1000), "s0": (0, 100), "s1": (101, 200)})
+def copyParamsFrom_gives_equal_values_in_a_new_collection(g0: int, s0: int, s1: int, neverPower: bool, neverFlux: bool, pw: float, f0: float, n: float, q: float):
+    """ArmiObject.copyParamsFrom(other): the object gets a NEW collection of other's class in which every parameter
+    that was ever assigned (definition flag != NEVER; both cases for power and for mgFlux) equals
+    other's value, never-assigned ones have their default; other is unchanged.  (The serial number it ends up with:
+    contracts/pending/C16_copies_finding.py.)"""
+    m1 = m2 = SINCE_ANYTHING
+    if neverPower:
+        m1 = NEVER
+    if neverFlux:
+        m2 = NEVER
+    assume(s0 <= g0 and s1 <= g0 and s0 != s1)
+    defs = mk_class()
+    pcmod.GLOBAL_SERIAL_NUM = g0
+    for d in defs:
+        d.assigned = SINCE_ANYTHING
+    defs[1].assigned = m1
+    defs[2].assigned = m2
+    a = mk_node(Owner, "a", mk_coll(s0, 0, pw, [f0, 2.0], {"U235": n}, None, None))
+    b = mk_node(Owner, "b", mk_coll(s1, 0, q, None, None, None, None))
+    oldP = b.p
+    b.copyParamsFrom(a)
+    assert not same(b.p, a.p) and not same(b.p, oldP) and isinstance(b.p, PCS), "a new collection of the same class"
+    assert b.p.power == (pw if m1 != NEVER else 0.0), "assigned parameter: other's value; never assigned: the default"
+    if m2 != NEVER:
+        assert len(b.p.mgFlux) == 2 and b.p.mgFlux[0] == f0
+    else:
+        assert b.p.mgFlux is None
+    assert b.p.numberDensities["U235"] == n
+    assert a.p.power == pw and a.p.mgFlux[0] == f0 and a.p.serialNum == s0, "other unchanged"
